@@ -150,6 +150,10 @@ def t3_reexport() -> Iterator[Dict[str, Any]]:
                    mod("errors", 2, ops=flat(cls("Error"))),
                    mod("sub", 2, pkg=True),
                    mod("_impl", 4, ops=flat(frm("pkg.errors", "Error"), cls("X", "Error", body=[fn("m")])))], "T3", idiom="nested-origin-with-back-import")
+    # a PLAIN module listing a sub-module of another package in its __all__
+    yield project([mod("pkg", pkg=True), mod("sub", 1, ops=flat(cls("S"))),
+                   mod("facade", ops=[frm("pkg", "sub")], all=["sub"]),
+                   mod("use", ops=flat(frm("pkg.sub", "S"), cls("T", "S")))], "T3", idiom="module-reexported-by-plain-module")
     # origin lists the name in its own __all__: no move
     yield project([mod("p", pkg=True, ops=[frm("_impl", "X", lvl=1)], all=["X"]),
                    mod("_impl", 1, ops=flat(cls("X")), all=["X"]),
